@@ -118,6 +118,42 @@ def generate(rng, tier):
                            tag="%s:%s:cut:%s" % (arch, marker, "low" if cut < base + 32 else ("high" if cut > top - 32 else "mid")))
                 s.meta[ln] = {"role": "cut", "ref": full, "cut": cut, "arch": arch, "sp0": base}
         out.append(("trunc-%s-%d" % (arch, rep), s))
+    # PE: functions whose unwind codes compress into the pop rule (pushes and one allocation). Every cut of the stack:
+    # the rule reads one word per popped register and then the return address, and must name the word it could not read
+    import petruth
+    for w in range(2 if tier == "quick" else 20):
+        s = Script("x86", "may" if w % 2 == 0 else "must")
+        prog = petruth.make_program(rng, only=[("push", dict(npush=k)) for k in (1, 2, 3, 4, 2, 3)])
+        pbase = 0x7ff600000000 + 0x10000 * rng.below(256)
+        module_pe(s, "M", pbase, pbase + 0x400000, pbase, 0x140000000, prog["table"], prog["uinfos"], prog["text_lo"], prog["text"])
+        s.add("new U"); s.add("add U M")
+        for sc_i in range(3 if tier == "quick" else 6):
+            top = 0x7ffe0000 + 0x1000 * rng.below(8)
+            fi = rng.choice(prog["funcs"])
+            bi = rng.choice([b for b in petruth.boundaries(fi) if b[2] == "body"])
+            sc = petruth.make_scenario(rng, prog, pbase, top, rng.range(2, 5), inner=(fi, bi))
+            fr = sc["frames"]
+            # the innermost frame is stopped in its body: all its unwind codes apply and no epilog is in sight
+            f1 = fr[0]
+            mem = dict(sc["mem"])
+            lo = min(mem); hi = max(mem) + 8
+            mid = "P%d" % sc_i
+            s.mem(mid, sorted(mem.items()))
+            regs = petruth.script_regs(f1["pc"], f1["regs_in"])
+            # first step as a return address: use the iterator-free trace from a caller frame by unwinding it manually first
+            s.add("newcache C")
+            full = s.add("trace U C %s %s %s %d" % (hx(f1["pc"] - 0), regs, mid, len(fr) + 4), tag="x86:pe-pops:full")
+            s.meta[full] = {"role": "full", "marker": "null return address (PE pop rules)", "arch": "x86"}
+            cuts = list(range(f1["regs_in"][4] & ~7, hi + 8, 8))
+            if tier == "quick" and len(cuts) > 24:
+                cuts = sorted(set([cuts[0], cuts[1], cuts[-1]] + [rng.choice(cuts) for _ in range(22)]))
+            for cut in cuts:
+                cid = "%s_%x" % (mid, cut)
+                s.mem(cid, sorted((a, v) for a, v in mem.items() if a < cut))
+                s.add("newcache C")
+                ln = s.add("trace U C %s %s %s %d" % (hx(f1["pc"]), regs, cid, len(fr) + 4), tag="x86:pe-pops:cut")
+                s.meta[ln] = {"role": "cut", "ref": full, "cut": cut, "arch": "x86", "sp0": f1["regs_in"][4]}
+        out.append(("pe-pops-%d" % w, s))
     # a null return address is a root marker on the generic (uncacheable) path too
     for w in range(6 if tier == "quick" else 60):
         arch = "x86" if w % 2 == 0 else "a64"
